@@ -204,6 +204,10 @@ func (m *supModel) applicable(ev SupEvent) bool {
 			return len(m.inst) > 0
 		case "sofostart":
 			return !m.disabled[ev.Child%m.n]
+		case "disable":
+			return !m.disabled[ev.Child%m.n]
+		case "enable":
+			return m.disabled[ev.Child%m.n]
 		case "stranger":
 			return true
 		}
